@@ -8,6 +8,7 @@ def outJson : Out → Json
   | .key k g => Json.arr #["key", toJson k, toJson g]
   | .item v => Json.arr #["item", toJson v]
   | .stop => Json.arr #["stop"]
+  | .closed => Json.arr #["closed"]
 
 def parseOp (j : Json) : Except String Op := do
   let a ← j.getArr?
@@ -15,6 +16,7 @@ def parseOp (j : Json) : Except String Op := do
   match tag with
   | "adv" => pure .adv
   | "grp" => pure (.grpNext (← (← arrGet a 1).getNat?))
+  | "cls" => pure (.grpClose (← (← arrGet a 1).getNat?))
   | t => throw s!"bad op {t}"
 
 /-- number of source items still unread after each operation -/
